@@ -381,7 +381,9 @@ def step (H : Hashes) (dirLen : Nat) (s : State) : Op → State × Resp
           | none => (s, .err .InvalidRange)
           | some (st, en) =>
             let cl := en - st
-            let cr := fmtContentRange st ((en + u64Mod - 1) % u64Mod) len
+            -- `file_range.end - 1`: `end = 0` only for a suffix range on an empty file, where the wrapped value
+            -- is never seen because the seek below fails
+            let cr := fmtContentRange st (en - 1) len
             match r with
             | .int first _ => finish ((c.drop first).take cl) cl (some cr)
             | .suffix n =>
